@@ -2,7 +2,7 @@
 # tryseed.sh <patch.diff> <ID> [tier]  -- run a check against a scratch worktree of /repo with the patch applied.
 # (Development aid for working through many seeded changes side by side; a kept seed is confirmed once more by applying
 # it to /repo itself, see seeded/README.)
-patch="$1"; ID="$2"; tier="${3:-quick}"
+patch="$(realpath "$1")"; ID="$2"; tier="${3:-quick}"
 wt=$(mktemp -d /tmp/wt-try-XXXXXX); rmdir "$wt"
 git -C /repo worktree add -q "$wt" HEAD || exit 3
 if ! git -C "$wt" apply "$patch" 2>/dev/null && ! git -C "$wt" apply -3 "$patch"; then echo "PATCH DOES NOT APPLY"; git -C /repo worktree remove --force "$wt"; exit 3; fi
